@@ -3,6 +3,8 @@
 import json
 
 NA_REASON = "check not built yet (framework under construction)"
+NA = {"C12": "The property is about the limit of OpenMDAO's iterative nonlinear (block Gauss-Seidel/Aitken, Newton) and linear solvers over floating point with LAPACK/SuperLU solves in the loop: data-dependent trip counts cannot be executed symbolically, and a bounded unrolling proves nothing about convergence, uniqueness of the fixed point or independence from the initial guess. Its algebraic ingredients are decided under C03 (history independence, per-instance solver state), C05 (tangency system), C10 (beam equilibrium), C11 (transfer)."}
+TECH = {"C20": "CrossHair symbolic execution of the real validation code (z3) + AST-to-SMT translation of the key loops + symoas domain obligations (z3 NRA)"}
 T = "symbolic execution of the real numpy code on object arrays + SMT (z3 nonlinear real arithmetic) per obligation; counterexamples replayed on the real component"
 NOTE = ("Bounds: small mesh sizes (stated in the evidence); reals instead of IEEE doubles; OpenMDAO itself trusted; "
         "inconclusive (timeout/unknown) obligations are listed in the evidence and not claimed.")
@@ -39,6 +41,12 @@ CHECKS = {
          NOTE + " Known findings listed: root-at-last-index assumption of Sweep/Dihedral/Taper/Rotate on right-half meshes, VonMisesWingbox end-node choice. Coupled convergence not decided.", "DESIGN.md 3/C07"),
  "C08": ("Reduced claim: with groundplane=True the AIC, right-hand side and forces of the real pipeline equal, entry by entry, those of an independently written image system (reflection about the alpha-rotated plane through n*h, image strength -1, for the surface and its symmetry image).",
          NOTE + " Not decided: convergence to free air as the height grows (a limit). Rejection without symmetry is part of C20.", "DESIGN.md 3/C08"),
+ "C02": ("Reduced claim (OpenAeroStruct's own sufficient conditions for correct and mode-independent totals): FEM and SolveMatrix report dR/du equal to the matrix they factorise; solve_linear (scipy LU replaced by a contract stub A x = b / A^T x = b) satisfies the forward and the transposed system, for FEM relying on the proved symmetry of K, with a non-symmetric twin refuted; the MPhys mux/demux matrix-free products equal the derivative of compute and are mutually adjoint; index maps are inverse permutations.",
+         NOTE + " C01 is a premise. Trusted, not decided: OpenMDAO's chain-rule assembly, convergence and agreement of its Direct/LinearBlockGS/Krylov solvers, accuracy of cs/fd approximated partials.", "DESIGN.md 3/C02"),
+ "C19": ("Reduced claim: permuting the surface list permutes AIC, right-hand side and forces of the real pipeline consistently; splitting a full-span surface at an interior station into two abutting surfaces gives the same AIC/rhs up to the panel permutation and the same sectional forces (SMT identities over canonicalised kernel atoms); the MPhys solver group contains the native state components.",
+         NOTE + " Not decided: vanishing influence of a far-away surface (a limit). Mux/demux inverse and adjointness are obligations of C02.", "DESIGN.md 3/C19"),
+ "C20": ("Reduced claim: CrossHair contracts on the invalid-input domain of the real API (even num_y, unknown wing type, unknown structural model through SpatialBeamAlone and AerostructGeometry, exactly one wingbox thickness distribution, ground effect without symmetry through AeroPoint, wrong-length section lists), each with a refuted reachability twin; the two key-validation loops translated from their AST to SMT over strings (every unknown key warns with RuntimeWarning, no documented key warns); solver obligations that every divisor, sqrt and log argument of 21 components is in-domain on admissible inputs; option arrays read-only during all symbolic executions; ast scan for module-level state.",
+         NOTE + " Not decided: bit-for-bit reproducibility between runs/problems beyond the absence of module-level state. CrossHair explores within its per-condition budget, strings <= 7 characters.", "DESIGN.md 3/C20"),
 }
 
 
@@ -61,9 +69,9 @@ def main():
                                 "evidence_file": "/verif/evidence/%s.json" % pid,
                                 "replay_cmd_template": "./check %s --replay {path}" % pid, "engine": "symoas",
                                 "level_claimed": {"category": "other", "text": text, "design_ref": dref},
-                                "level_note": note, "technique": T})
+                                "level_note": note, "technique": TECH.get(pid, T)})
         else:
-            m["not_applicable"].append({"property_id": pid, "reason": na.get(pid, NA_REASON)})
+            m["not_applicable"].append({"property_id": pid, "reason": NA.get(pid, na.get(pid, NA_REASON))})
     json.dump(m, open("/verif/MANIFEST.json", "w"), indent=1)
     print("checks:", [c["property_id"] for c in m["checks"]], "n/a:", [e["property_id"] for e in m["not_applicable"]])
 
